@@ -1274,7 +1274,7 @@ def run(ctx):
         # ---- (b) code -> spec: recorded executions
         import time
         tm = {"t0": time.time()}
-        ntr = 210 if quick else 1500
+        ntr = 210 if quick else 1000
         execs = []
         for i in range(ntr):
             mode = ("sp", "cm", "up")[i % 3]
@@ -1293,7 +1293,7 @@ def run(ctx):
             plan += [(rng.choice(["cm", "up"]), "hidden", rng.choice([9, 10, 33]), [["sort@text/f", "reformat"], ["sort@text/r"]]),
                      (rng.choice(["cm", "up"]), "hidden", rng.choice([5, 17]), [["sort@text/r"], ["sort@text/f"]])]
         if not quick:
-            plan += [(m, "perline", 1000, [["sort@text/f", "reformat"]]) for m in ("sp", "cm")]
+            plan += [(("sp", "cm")[ctx.seed % 2], "perline", 1000, [["sort@text/f", "reformat"]])]
         for mode, kind, n, forced in plan:
             execs.append(record_trace(rng, mode, stress_layout(rng, mode, kind, n), len(forced), 0, stress=True,
                                       longname=rng.random() < 0.5, forced=forced))
